@@ -17,6 +17,9 @@ import faulthandler
 import hashlib
 import json
 import multiprocessing
+import pickle
+import shutil
+import tempfile
 import os
 import random
 import subprocess
@@ -111,12 +114,27 @@ def _work(args):
         agg.add(res, keep_sample=(n < 1))
         if res.get("violation"):
             if len(agg.violations) < 4:
-                agg.violations.append((i, res["case"], res["violation"]))
+                try:
+                    mcase, mviol, _ = _minimise_job((prop_id, res["case"], res["violation"]))
+                except Exception as e:   # pylint: disable=broad-except
+                    mcase, mviol = res["case"], res["violation"]
+                    agg.errors.append((i, "minimisation failed: %r" % (e,)))
+                agg.violations.append((i, res["case"], res["violation"], mcase, mviol))
             else:
                 agg.extra["violations_not_kept"] += 1
         i += stride
         n += 1
     return agg
+
+
+def worker_main():
+    t = json.loads(os.environ["VERIF_WORKER_TASK"])
+    out = t.pop()
+    agg = _work(tuple(t))
+    with open(out + ".tmp", "wb") as f:
+        pickle.dump(agg, f)
+    os.replace(out + ".tmp", out)
+    return 0
 
 
 def load_prop(prop_id):
@@ -292,20 +310,37 @@ def main(prop_id, tier, seed, runs=None, jobs=None, wall=None):
                 print("NOTE: known finding %s no longer reproduces from its exemplar(s)" % f["id"])
     printed_known = set(l.split()[2] for l in lines)
 
-    # (b) seeded search
+    # (b) seeded search: one fresh interpreter per worker (fork()ed workers of a warm parent run ~6x slower in
+    #     this VM: copy-on-write of a refcounted heap), results exchanged as pickles
     ctx = multiprocessing.get_context("fork")
     agg = Agg()
     per = (runs + jobs - 1) // jobs
     tasks = [(prop_id, tier, seed, w, per, deadline, jobs) for w in range(jobs)]
     dead_workers = 0
-    with cf.ProcessPoolExecutor(max_workers=jobs, mp_context=ctx) as pool:
-        futs = [pool.submit(_work, t) for t in tasks]
-        for fu in futs:
-            try:
-                agg.merge(fu.result(timeout=max(30, deadline - time.time() + 120)))
-            except Exception as e:
-                dead_workers += 1
-                agg.errors.append((-1, "worker failed: %r" % (e,)))
+    outdir = tempfile.mkdtemp(prefix="csverif-out-")
+    procs = []
+    for t in tasks:
+        out = os.path.join(outdir, "w%d.pkl" % t[3])
+        env = dict(os.environ)
+        env["VERIF_WORKER_TASK"] = json.dumps(list(t) + [out])
+        procs.append((t, out, subprocess.Popen([sys.executable, os.path.join(VERIF, "run_check.py"), prop_id, "--worker"],
+                                               env=env, stdout=subprocess.PIPE, stderr=subprocess.STDOUT, text=True)))
+    for t, out, p in procs:
+        try:
+            so, _ = p.communicate(timeout=max(30, deadline - time.time() + 180))
+        except subprocess.TimeoutExpired:
+            p.kill()
+            so, _ = p.communicate()
+            agg.errors.append((-1, "worker %d timed out (wall clock)\n%s" % (t[3], (so or "")[-1500:])))
+            dead_workers += 1
+            continue
+        try:
+            with open(out, "rb") as f:
+                agg.merge(pickle.load(f))
+        except Exception as e:
+            dead_workers += 1
+            agg.errors.append((-1, "worker %d produced no result (exit %s): %r\n%s" % (t[3], p.returncode, e, (so or "")[-1500:])))
+    shutil.rmtree(outdir, ignore_errors=True)
     if agg.errors:
         exit_code = 2
         for i, tb in agg.errors[:3]:
@@ -317,15 +352,8 @@ def main(prop_id, tier, seed, runs=None, jobs=None, wall=None):
     viols = sorted(agg.violations, key=lambda v: v[0])
     budget_each = 8
     if viols:
-        with cf.ProcessPoolExecutor(max_workers=min(jobs, len(viols)), mp_context=ctx) as pool:
-            futs = [(idx, case, viol, pool.submit(_minimise_job, (prop_id, case, viol))) for idx, case, viol in viols[:budget_each * 4]]
-            for idx, case, viol, fu in futs:
-                try:
-                    mcase, mviol, _ = fu.result(timeout=900)
-                except Exception as e:
-                    print("HARNESS: minimisation failed for run %d: %r" % (idx, e))
-                    exit_code = 2
-                    mcase, mviol = case, viol
+        if True:
+            for idx, case, viol, mcase, mviol in viols[:budget_each * 4]:
                 if mviol is None:
                     print("HARNESS-NONDETERMINISM property=%s run=%d: violation %s did not reproduce on replay" % (prop_id, idx, viol["cls"]))
                     path = write_replay(prop_id, seed, idx, case, viol, {"note": "did not reproduce"})
